@@ -74,6 +74,8 @@ func (ap *AP) SetShape(s ...int) {
 			return
 		}
 
+		// s may be this AP's own shape slice (t.Reshape(t.Shape()...)): copy it before the old one is zeroed and recycled
+		newShape := Shape(s).Clone()
 		if ap.shape != nil {
 			ReturnInts(ap.shape)
 			ap.shape = nil
@@ -82,7 +84,7 @@ func (ap *AP) SetShape(s ...int) {
 			ReturnInts(ap.strides)
 			ap.strides = nil
 		}
-		ap.shape = Shape(s).Clone()
+		ap.shape = newShape
 		ap.strides = ap.calcStrides()
 	}
 }
